@@ -687,6 +687,7 @@ func GenStmtFuzzScript(t *rapid.T, thorough bool) *Script {
 func GenHandoffScript(t *rapid.T, thorough bool) *Script {
 	o := mixedOpts(thorough)
 	o.Faults, o.BindFailures, o.MIG, o.Completions = false, false, false, false
+	o.DRA = true
 	s := GenScript(t, "C12", "handoff", o)
 	var pods []string
 	for _, w := range s.World.Workloads {
